@@ -282,3 +282,58 @@ func H_C03_SliceIndexKernel() {
 type skiplistIter interface {
 	Next() ([]byte, IndexVal, error)
 }
+
+var vLongKeyLens = []int{1, 7, 33, 129, 250}
+
+// H_C03_BloomLongKeys: no bloom-filter false negative for keys of very different lengths: the write side and the
+// read side must hash the same bytes with the same function. (The hash of symbolic bytes is an injective
+// uninterpreted function: equal results iff equal inputs, so any difference in what is hashed shows.)
+func H_C03_BloomLongKeys() {
+	fs := vEnv()
+	defer fs.Cleanup()
+	dir := fs.Path("t")
+	fs.MkdirAll(dir)
+	l1 := vLongKeyLens[vrt.Choose("len1", len(vLongKeyLens))]
+	l2 := vLongKeyLens[vrt.Choose("len2", len(vLongKeyLens))]
+	// long keys are concrete except for their last byte (everything the filter could drop or add is visible in
+	// the real fnv hash of concrete bytes; the symbolic last byte keeps the tail in play)
+	mk := func(name string, l int, first byte) []byte {
+		k := make([]byte, l)
+		for i := range k {
+			k[i] = byte(1 + (i*7)%120)
+		}
+		k[0] = first
+		k[l-1] = vrt.Byte(name)
+		return k
+	}
+	k1 := mk("k1", l1, 'a')
+	k2 := mk("k2", l2, 'b')
+	if l1 == 1 {
+		k1[0] = 'a'
+	}
+	if l2 == 1 {
+		k2[0] = 'b'
+	}
+	vrt.Assume(vrt.CmpBytes(k1, k2) < 0)
+	keys := [][]byte{k1, k2}
+	vals := [][]byte{{1}, {2}}
+	vWriteTable(dir, keys, vals, recordio.CompressionTypeSnappy, recordio.CompressionTypeNone, 4096)
+	li := vrt.Choose("loader", 2) // slice (default) and disk: the filter is in front of every loader
+	if li == 1 {
+		li = 3
+	}
+	r, err := NewSSTableReader(ReadBasePath(dir), ReadBufferSizeBytes(4096), ReadIndexLoader(vLoader(li, 4096)))
+	vrt.Assert(err == nil, "bloom/open-no-error")
+	if err != nil {
+		return
+	}
+	for i := range keys {
+		c, cerr := r.Contains(keys[i])
+		vrt.Assert(cerr == nil && c, "bloom/written-key-is-contained-whatever-its-length")
+		got, gerr := r.Get(keys[i])
+		vrt.Assert(gerr == nil && vrt.EqBytes(got, vals[i]), "bloom/written-key-readable")
+	}
+	r.Close()
+	vrt.Trace("l1", uint64(l1))
+	vrt.Reach("bloom/end")
+}
